@@ -58,7 +58,18 @@ _L = {'op': 'loop'}
 _STOP = _cmd('stop', mode='REQUEST(NOW)')
 _R = {'op': 'restart'}
 
+_FAMFLOW = _flow(_q('q', 1, ['BIG']), graph='a & b & c', fcp=1) + '''    [[SMALL]]
+    [[BIG]]
+    [[a]]
+        inherit = SMALL, BIG
+    [[b]]
+        inherit = BIG
+'''
+
 _CORPUS = {
+    # a queue that lists a FAMILY: a inherits it as second parent (multiple inheritance), b as only parent; both belong
+    # to q (limit 1), c to default
+    'family-second-parent': (_FAMFLOW, [_L, _L] + _job('1/c') + _job('1/a') + [_L, _L] + _job('1/b') + [_L, _L]),
     # limit 1 over three parallel tasks and two cycles: main loops while the released task is still `preparing`
     # (no submit result yet) must release nothing more; then one at a time in the order they were queued
     'preparing-window': (_flow(_q('q', 1, ['a', 'b', 'c'])),
@@ -91,6 +102,86 @@ _CORPUS = {
                                        [_L, _trig('2/c'), _L, _trig('2/b'), _L] + _job('1/a') + _job('2/c') +
                                        [_L, _L] + _job('1/b') + [_L, _L]),
 }
+
+
+def add_queue_families(case, rng):
+    """Replace one or two tasks in the member lists of the generated [[queues]] by family names; the tasks inherit
+    the family as `SMALL, BIG` (second parent), `BIG, SMALL`, or `BIG` alone."""
+    import re
+    flow = case['flow']
+    lines = flow.split('\n')
+    idx = [i for i, ln in enumerate(lines) if re.match(r'^            members = ', ln)]
+    if not idx:
+        return case
+    fams = {}
+    for n, i in enumerate(rng.sample(idx, min(len(idx), rng.choice([1, 1, 2])))):
+        mem = [m.strip() for m in lines[i].split('=', 1)[1].split(',')]
+        t = rng.choice(mem)
+        fam = f'BIG{n}'
+        keep = rng.random() < 0.2          # now and then the task stays listed next to its family
+        mem = [fam if m == t else m for m in mem] + ([t] if keep else [])
+        lines[i] = '            members = ' + ', '.join(dict.fromkeys(mem))
+        fams.setdefault(t, []).append(fam)
+    flow = '\n'.join(lines)
+    extra = '    [[SMALL]]\n'
+    for t, fl in fams.items():
+        for fam in fl:
+            extra += f'    [[{fam}]]\n'
+        order = rng.choice(['second', 'second', 'first', 'only'])
+        inh = {'second': ['SMALL'] + fl, 'first': fl + ['SMALL'], 'only': fl}[order]
+        head = f'    [[{t}]]\n'
+        line = f'        inherit = {", ".join(inh)}\n'
+        if head in flow:
+            flow = flow.replace(head, head + line, 1)
+        else:
+            flow += head + line
+    flow += extra
+    return dict(case, flow=flow, id=case['id'] + 'f')
+
+
+def expected_queues(flow, tasks):
+    """[[task, queue]..] from the flow.cylc TEXT: member lists of [[queues]] with family names expanded over the full
+    inheritance of the [runtime] sections; the last queue listing a task wins, else `default`."""
+    import re
+    parents, cur, in_rt = {}, None, False
+    queues, q = [], None
+    for ln in flow.split('\n'):
+        if re.match(r'^\[runtime\]', ln):
+            in_rt = True
+        m = re.match(r'^    \[\[([^\[\]]+)\]\]\s*$', ln)
+        if m and in_rt:
+            cur = m.group(1).strip()
+            parents.setdefault(cur, [])
+            continue
+        m = re.match(r'^\s*inherit\s*=\s*(.*)$', ln)
+        if m and in_rt and cur:
+            parents[cur] = [x.strip() for x in m.group(1).split(',') if x.strip()]
+        m = re.match(r'^        \[\[\[([^\[\]]+)\]\]\]\s*$', ln)
+        if m and not in_rt:
+            q = [m.group(1).strip(), []]
+            queues.append(q)
+        m = re.match(r'^            members\s*=\s*(.*)$', ln)
+        if m and not in_rt and q is not None:
+            q[1] = [x.strip() for x in m.group(1).split(',') if x.strip()]
+
+    def ancestors(n, seen=()):
+        out = set()
+        for p in parents.get(n, []):
+            if p not in seen:
+                out |= {p} | ancestors(p, seen + (n,))
+        return out
+    tasks = list(tasks)
+    assign = {t: 'default' for t in tasks}
+    for qn, mem in queues:
+        if qn == 'default':
+            continue
+        for m in mem:
+            if m in tasks:
+                assign[m] = qn
+            for t in tasks:
+                if m in ancestors(t):
+                    assign[t] = qn
+    return sorted([t, qn] for t, qn in assign.items())
 
 
 class C05S(SchedProp):
@@ -171,8 +262,11 @@ class C05S(SchedProp):
             'while another queue is full, 10 % tasks that already have a job - mixed with hold / release / hold point / '
             'pause / resume, no restart); compared after every '
             'operation: the pool in get_tasks() order, every queue head first, the proxies waiting on job preparation, '
-            'the manual-submit flags, plus everything the Sched2 correspondence compares; six hand-written histories and '
-            'the three finding witnesses run first; non-trivial = a '
+            'the manual-submit flags, plus everything the Sched2 correspondence compares; every third generated workflow '
+            'gets FAMILIES in its queue member lists (a member task replaced by a family it inherits as second, first or '
+            'only parent) and the judge checks the queue of every task against the membership computed from the flow.cylc '
+            'text with full inheritance; seven hand-written histories, the witness of the open finding and the witnesses '
+            'of the REPAIRED findings (permanent regression tests) run first; non-trivial = a '
             'limited queue held back a ready task; classes = (kind, limit-bound, held-in-queue, release-past-held, '
             'restart-with-queue, launch count)')
     kinds = ('qc', 'cmdqt', 'qa', 'cmdq', 'cmdqtc', 'cmdqc')
@@ -229,8 +323,34 @@ class C05S(SchedProp):
     ]
 
     def corpus(self):
-        return [{'id': 'c05s-' + k, 'flow': flow, 'seed': 0, 'opts': {}, 'policy': {'restarts': 1}, 'ops': ops,
-                 'kind': 'corpus'} for k, (flow, ops) in _CORPUS.items()]
+        out = [{'id': 'c05s-' + k, 'flow': flow, 'seed': 0, 'opts': {}, 'policy': {'restarts': 1}, 'ops': ops,
+                'kind': 'corpus'} for k, (flow, ops) in _CORPUS.items()]
+        # the witnesses of REPAIRED findings stay in the corpus for good: a regression of the repair must be reported
+        # as a violation (a `fixed` entry suppresses nothing, and the check itself does not run its witness)
+        import json
+        from core import VERIF
+        f = VERIF / 'findings' / 'C05S.json'
+        if f.exists():
+            for e in json.loads(f.read_text()):
+                if e.get('kind') == 'fixed' and 'witness' in e and e['witness'] not in out:
+                    out.append(e['witness'])
+        return out
+
+    def gen(self, tier, rng):
+        # every third generated case gets FAMILIES in its queue member lists: a member task is replaced by a family
+        # name that the task inherits as first, second (multiple inheritance) or only parent (text surgery on the
+        # generated flow.cylc; drawn from an own generator so that the other cases are unchanged)
+        import random
+        for k, case in enumerate(super().gen(tier, rng)):
+            if k % 3 == 1:
+                case = add_queue_families(case, random.Random(case.get('seed', 0) * 7919 + 13))
+            yield case
+
+    def driver_input(self, inp, raw):
+        d = super().driver_input(inp, raw)
+        if 'graph' in d:
+            d['expect_queue'] = expected_queues(inp.get('flow', ''), raw['graph'].get('order', []))
+        return d
 
     def impl_batch(self, inputs):
         # a start-up time-out of the scheduler's server thread (overloaded machine) says nothing about the
